@@ -6,10 +6,13 @@ set_option linter.unusedSimpArgs false
 
 namespace LS.GenTie
 
-theorem pop_tie (s : St) (hd : DataOk s.hp) (hr : RawOk s.self) :
+/-- `pop`: the code subtracts `ch.len_utf8()` from `len()`; the last character of a non-empty valid text fits in it
+(`hfit`, from `Valid`) — the hand model's ℕ subtraction would silently truncate otherwise -/
+theorem pop_tie (s : St) (hd : DataOk s.hp) (hr : RawOk s.self)
+    (hfit : ∀ t, textOf s.hp s.st s.self = .ok t → t.isEmpty = false → trailing t + 1 ≤ t.length) :
     resOfOptChr (GenRepr.Repr.pop s) = pop s.st s.hp s.self := by
   rcases s with ⟨rf, st, hp, r⟩
-  simp only at hd hr
+  simp only at hd hr hfit
   unfold GenRepr.Repr.pop pop
   cases htx : textOf hp st r with
   | error u => rt_step [htx, resOfOptChr]
@@ -19,9 +22,10 @@ theorem pop_tie (s : St) (hd : DataOk s.hp) (hr : RawOk s.self) :
     | true => rt_step [htx, he, resOfOptChr, Option.map]
     | false =>
       simp only [Bool.false_eq_true, ↓reduceIte]
+      have hsub := eq_true (hfit t htx he)
       cases htu : truncateUnchecked r (t.length - (trailing t + 1)) with
-      | error u => rt_step [htx, he, truncate_unchecked_step, ← hl, htu, resOfOptChr]
-      | ok r' => rt_step [htx, he, truncate_unchecked_step, ← hl, htu, resOfOptChr, Option.map]
+      | error u => rt_step [htx, he, hsub, truncate_unchecked_step, ← hl, htu, resOfOptChr]
+      | ok r' => rt_step [htx, he, hsub, truncate_unchecked_step, ← hl, htu, resOfOptChr, Option.map]
 
 theorem str_mut_of_write {ρ : Type} (rf : Refuse) (st : List Bytes) {hp1 : Heap} {r1 : Handle} {off : Nat} {bytes : Bytes}
     {hp2 : Heap} {r2 : Handle} (h : writeBytes hp1 r1 off bytes = .ok (hp2, r2)) :
@@ -99,13 +103,15 @@ theorem remove_tie (idx : Nat) (s : St) (hd : DataOk s.hp) (hr : RawOk s.self)
               have htail2 : (stor.drop (idx + charWidth (t1.getD idx 0))).take (r1.len - idx - charWidth (t1.getD idx 0)) =
                   t1.drop (idx + charWidth (t1.getD idx 0)) := by
                 rw [ht1e, List.drop_take]; congr 1; omega
+              have hs1 := eq_true (show charWidth (t1.getD idx 0) ≤ r1.len - idx by omega)
+              have hs2 := eq_true (show charWidth (t1.getD idx 0) ≤ r.len by omega)
               have e : t1.length - charWidth (t1.getD idx 0) = r.len - charWidth (t1.getD idx 0) := by omega
               rw [e] at hub ⊢
               cases hs3 : setLen r2 (r.len - charWidth (t1.getD idx 0)) with
               | error u => rw [hs3] at hub; exact absurd rfl (hub u)
               | ok r3 =>
                 rt_step [htx, hb, hi', call_norm, hres, hrv, stepOfRes, hsm, hc1, Nat.zero_add, hstor, hc2, htail, hcons,
-                  hc3, htail2, hwb, set_len_step, hs3, norm_next, norm_done, norm_pidx, norm_ub, resOfChr]
+                  hs1, hs2, hc3, htail2, hwb, set_len_step, hs3, norm_next, norm_done, norm_pidx, norm_ub, resOfChr]
       · have hi' : ¬ idx < r.len := by omega
         simp only [hi, decide_false, Bool.not_false, ↓reduceIte] at hub ⊢
         rt_step [htx, hb, hi', resOfChr]
